@@ -161,9 +161,6 @@ Qed.
 Definition is_none {A} (o : option A) : bool := match o with None => true | Some _ => false end.
 
 (** the part of [claims_acceptable] that Claims.Validate decides *)
-Definition g5 (cf : config) (c : claims) : bool :=
-  String.eqb (c_iss c) "" && mem EmptyString (trusted_issuers cf).
-
 Definition validated (cf : config) (now : Z) (c : claims) : bool :=
   negb (String.eqb (c_iss c) "") && mem (c_iss c) (trusted_issuers cf) && audience_ok cf c &&
   match_scopes (required_scopes cf) (eff_scopes c) &&
